@@ -392,3 +392,355 @@ def run(repo: Repo, rep: Report) -> None:  # noqa: F811
                            "" if ok else "under `%s` the translator builds %s: SELECT %s does not get the %s evaluator" % (norm(n.test)[:60], built, kw, node), node=n)
     if n_arm < 2:
         raise AnalysisError("translate: DISTINCT / REDUCED arms not found")
+
+
+_run_base3 = run
+
+
+def run(repo: Repo, rep: Report) -> None:  # noqa: F811
+    """Rules l-r: one structural necessary condition per defect repaired in the audit round (F102-F109), each quantified over every site of its kind."""
+    _run_base3(repo, rep)
+    from vlib import h_c08 as H
+
+    rep.extra["explanation"] = rep.extra.get("explanation", "") + (
+        " (l) a grammar-optional parameter reaches a mandatory algebra-constructor parameter only under a None test; (m) no SPARQLError leaves use_row/update/set_value of any "
+        "accumulator; (n) every result of _eval is tested for being an error before use; (o) sort-key functions return a key on every path; (p) the sort key's `number` block uses "
+        "Literal.__gt__'s own predicate; (q) no accumulator binds None; (r) SUM/AVG record numeric()'s type error and set_value consults the mark."
+    )
+
+    typed = repo.typed
+    ev = repo.mod("rdflib.plugins.sparql.evaluate")
+    ag = repo.mod("rdflib.plugins.sparql.aggregates")
+    eu = repo.mod("rdflib.plugins.sparql.evalutils")
+    par = repo.mod("rdflib.plugins.sparql.parser")
+    alg = repo.mod("rdflib.plugins.sparql.algebra")
+    ERR = "rdflib.plugins.sparql.sparql.SPARQLError"
+    esc = H.Escapes(repo, ERR)
+    covers_all_errors = esc.bases["SPARQLError"]  # naming one of these in isinstance / except covers every SPARQL error
+
+    # the classes Aggregator instantiates (values of Aggregator.accumulator_classes)
+    concrete: list[str] = []
+    for st in ag.cls("Aggregator").body:
+        if isinstance(st, ast.Assign) and norm(st.targets[0]) == "accumulator_classes" and isinstance(st.value, ast.Dict):
+            concrete = sorted({norm(v) for v in st.value.values})
+    if len(concrete) < 7 or not all(ag.has(c) for c in concrete):
+        raise AnalysisError("Aggregator.accumulator_classes: classes not found (%s)" % concrete)
+    AG = "rdflib.plugins.sparql.aggregates."
+
+    def resolved(cname: str, meth: str):
+        for b in typed.mro(AG + cname):
+            if b.startswith(AG):
+                m = ag.methods(b[len(AG):]).get(meth)
+                if m is not None:
+                    return b[len(AG):], m
+        return None, None
+
+    # ------------------------------------------------------------------ (l)  F102
+    rep.rule("C08.l-grammar-optional-into-mandatory-algebra-field",
+             "algebra.py: where a parse node is known to be the grammar production K (`x.name == \"K\"`) and one of its parameters x.a is passed to an algebra constructor "
+             "(Extend, Filter, Group, ...) for a parameter that has no default, then either a is mandatory in K's production in parser.py, or the call lies in a branch taken "
+             "only when x.a is not None. `GROUP BY (?a + ?b)` has no `AS ?v` (Optional in [20] GroupCondition): passing c.var on makes Extend(var=None) and a None group key, "
+             "and evaluation raises 'Cannot eval thing: None'", floor=3)
+    gp = H.grammar_params(par)
+    if "GroupAs" not in gp or "var" not in gp["GroupAs"][1] or "expr" in gp["GroupAs"][1]:
+        raise AnalysisError("parser.py: production GroupAs ( Expression (AS Var)? ) not recognised: %s" % (gp.get("GroupAs"),))
+    ctors: dict[str, list[tuple[str, bool]]] = {}
+    for q, f in alg.functions():
+        if "." not in q and any(isinstance(r, ast.Return) and isinstance(r.value, ast.Call) and norm(r.value.func) == "CompValue" for r in own_nodes(f)):
+            nd = len(f.args.args) - len(f.args.defaults)
+            ctors[q] = [(p.arg, i >= nd) for i, p in enumerate(f.args.args)]
+    if "Extend" not in ctors or "Group" not in ctors:
+        raise AnalysisError("algebra.py: algebra constructors not found (%s)" % sorted(ctors))
+
+    def production_of(node: ast.AST, base: str, stop: ast.AST):
+        child = node
+        for p_ in alg.parents(node):
+            if isinstance(p_, ast.If) and child in p_.body:
+                for t in ast.walk(p_.test):
+                    if isinstance(t, ast.Compare) and len(t.ops) == 1 and isinstance(t.ops[0], ast.Eq) and norm(t.left) == base + ".name" \
+                            and isinstance(t.comparators[0], ast.Constant) and isinstance(t.comparators[0].value, str):
+                        return t.comparators[0].value
+            if p_ is stop:
+                return None
+            child = p_
+        return None
+
+    for q, f in alg.functions():
+        for c in own_nodes(f):
+            if not (isinstance(c, ast.Call) and isinstance(c.func, ast.Name) and c.func.id in ctors):
+                continue
+            sig = ctors[c.func.id]
+            passed = [(sig[i], a) for i, a in enumerate(c.args) if i < len(sig)] + [((k.arg, dict(sig).get(k.arg, True)), k.value) for k in c.keywords if k.arg]
+            for (pname, has_default), a in passed:
+                if has_default or not (isinstance(a, ast.Attribute) and isinstance(a.value, ast.Name)):
+                    continue
+                K = production_of(c, a.value.id, f)
+                if K is None or K not in gp or a.attr not in gp[K][0]:
+                    continue
+                optional = a.attr in gp[K][1]
+                ok = not optional or H.non_none_guarded(alg, c, norm(a), f)
+                rep.ob("C08.l-grammar-optional-into-mandatory-algebra-field", alg, q, "%s.%s -> %s(%s=)" % (K, a.attr, c.func.id, pname), ok,
+                       ("mandatory in the production" if not optional else "only where it is not None") if ok else
+                       "%s is optional in the production %s (it is None when not written) but is passed unguarded as the mandatory `%s` of %s(...): the algebra node gets None where a term is required"
+                       % (a.attr, K, pname, c.func.id), node=c)
+
+    # ------------------------------------------------------------------ (m)  F103
+    rep.rule("C08.m-no-solution-error-escapes-row-protocol",
+             "Aggregator.update calls acc.use_row(row) and acc.update(row, self) for every solution, Aggregator.get_bindings calls acc.set_value(bindings) for every group, all without a "
+             "try: no SPARQLError (NotBoundError of _eval for an unbound variable, the error an expression evaluated to, SPARQLTypeError of numeric()) may leave one of these methods of "
+             "any accumulator class (resolved per class, including the instance-level re-bindings `self.use_row = self.dont_care` made in __init__) - a solution without a value is skipped, it "
+             "does not abort the query. `SELECT (SUM(DISTINCT ?v) AS ?s) { ?x :p ?y OPTIONAL { ?x :q ?v } }` with one ?x lacking :q", floor=21)
+    accs = sorted(c for c in typed.subclasses(AG + "Accumulator") if c.startswith(AG) and c != AG + "Accumulator")
+    for cfull in accs:
+        cname = cfull[len(AG):]
+        for entry in ("use_row", "update", "set_value"):
+            ms = esc.self_methods(ag, cfull, entry)
+            if not ms:
+                if cname in concrete:
+                    raise AnalysisError("%s has no %s()" % (cname, entry))
+                continue
+            out: set[str] = set()
+            for m in ms:
+                out |= esc.of_function(ag, m, cfull)
+            rep.ob("C08.m-no-solution-error-escapes-row-protocol", ag, "%s.%s" % (cname, entry), "SPARQL errors leaving %s() of a %s" % (entry, cname), not out,
+                   "none" if not out else "%s can leave %s.%s (defined in %s) and nothing between there and the query's caller handles it: one solution without a value for the "
+                   "aggregated expression makes the whole query raise instead of being skipped" % (sorted(out), cname, entry, sorted({ag.qual_of(m) for m in ms})), node=ms[0])
+
+    # ------------------------------------------------------------------ (n)  F106 F107 (and F109)
+    rep.rule("C08.n-eval-result-tested-for-error",
+             "evalutils._eval RETURNS the SPARQLError an expression evaluated to (it raises only NotBoundError): at every call site the first thing done with the result is "
+             "isinstance(result, SPARQLError) - before it is counted, compared, stored, used as a group key or bound. (A result that is only the operand of a comparison yields no value.) "
+             "Otherwise COUNT(1/?z) counts the error objects, MIN/MAX compare them (TypeError), and GROUP BY STRLEN(?iri) makes one group per failing solution since every error object is a key of its own", floor=4)
+    if not any(isinstance(n, ast.FunctionDef) and n.name == "_eval" and n.returns is not None and "SPARQLError" in norm(n.returns) for n in ast.walk(eu.tree)):
+        raise AnalysisError("evalutils._eval no longer declares that it returns SPARQLError values: rule C08.n must be revisited")
+    for mname, m in sorted(repo.modules.items()):
+        if not mname.startswith("rdflib.plugins.sparql") or m is eu:
+            continue
+        r = H.resolve_function(repo, m, "_eval")
+        if r is None or r[0] is not eu:
+            continue
+        for c in ast.walk(m.tree):
+            if not (isinstance(c, ast.Call) and isinstance(c.func, ast.Name) and c.func.id == "_eval"):
+                continue
+            fn = next((p_ for p_ in m.parents(c) if isinstance(p_, (ast.FunctionDef, ast.AsyncFunctionDef))), None)
+            if fn is None:
+                continue
+            where = m.qual_of(c)
+            par_ = m.parent.get(id(c))
+
+            def tested_first(scope: ast.AST, name: str, after: ast.AST) -> bool:
+                ld = H.first_load_after(scope, name, after)
+                if ld is None:
+                    return False
+                call = m.parent.get(id(ld))
+                return isinstance(call, ast.Call) and norm(call.func) == "isinstance" and len(call.args) == 2 and call.args[0] is ld \
+                    and bool(H.type_names(call.args[1]) & covers_all_errors)
+
+            if isinstance(par_, ast.Compare):
+                ok, why = True, "only compared (no value flows on)"
+            elif isinstance(par_, (ast.Assign, ast.AnnAssign)) and par_.value is c and isinstance(par_.targets[0] if isinstance(par_, ast.Assign) else par_.target, ast.Name):
+                tname = (par_.targets[0] if isinstance(par_, ast.Assign) else par_.target).id
+                ok = tested_first(fn, tname, par_)
+                why = "tested before any use" if ok else "the result is used without first being tested with isinstance(..., SPARQLError): an error object is handled as if it were a term"
+            elif isinstance(par_, (ast.GeneratorExp, ast.ListComp)) and par_.elt is c and isinstance(m.parent.get(id(par_)), ast.comprehension) \
+                    and m.parent[id(par_)].iter is par_ and isinstance(m.parent[id(par_)].target, ast.Name):
+                comp = m.parent[id(par_)]
+                owner = m.parent[id(comp)]
+                lds = sorted((n for n in ast.walk(owner) if isinstance(n, ast.Name) and n.id == comp.target.id and isinstance(n.ctx, ast.Load)), key=lambda n: (n.lineno, n.col_offset))
+                call = m.parent.get(id(lds[0])) if lds else None
+                ok = isinstance(call, ast.Call) and norm(call.func) == "isinstance" and call.args[0] is lds[0] and bool(H.type_names(call.args[1]) & covers_all_errors)
+                why = "each result tested before use" if ok else "the results are collected without being tested with isinstance(..., SPARQLError)"
+            else:
+                ok, why = False, "the result of _eval is used directly as a value (in `%s`): an error object is handled as if it were a term - every error object is distinct, so as a " \
+                                 "group key it makes one group per failing solution; counted, sampled or concatenated it is taken for a value" % norm(par_)[:80]
+            rep.ob("C08.n-eval-result-tested-for-error", m, where, c, ok, why, node=c)
+
+    # ------------------------------------------------------------------ (o)  F105
+    rep.rule("C08.o-sort-key-is-total",
+             "every function used as key= of sorted()/min()/max() in evaluate.py and aggregates.py (ORDER BY, MIN, MAX) returns a key on every path, whatever it is given: an ORDER BY "
+             "expression that is an error for some solution hands the error object to the key function; falling off the end returns None and sorted() raises TypeError comparing None with a tuple "
+             "(`ORDER BY (1/?z)` with one ?z = 0)", floor=3)
+    for m in (ev, ag):
+        for c in ast.walk(m.tree):
+            if not (isinstance(c, ast.Call) and isinstance(c.func, ast.Name) and c.func.id in ("sorted", "min", "max")):
+                continue
+            for k in c.keywords:
+                if k.arg != "key":
+                    continue
+                kf = k.value
+                if isinstance(kf, ast.Lambda) and isinstance(kf.body, ast.Call) and isinstance(kf.body.func, ast.Name):
+                    kf = kf.body.func
+                r = H.resolve_function(repo, m, kf.id) if isinstance(kf, ast.Name) else None
+                if r is None:
+                    # an expression (lambda not delegating to a function of the library) or a builtin: yields a value by construction
+                    rep.ob("C08.o-sort-key-is-total", m, m.qual_of(c), "%s(key=<expression>)" % c.func.id, True, "the key is an expression, not a function with paths", node=c, vacuous=True)
+                    continue
+                total = H.always_returns_value(r[1].body)
+                rep.ob("C08.o-sort-key-is-total", m, m.qual_of(c), "%s(key=%s)" % (c.func.id, r[1].name), total,
+                       "returns a key on every path" if total else "%s.%s has a path that falls off the end (returns None) - taken for an argument that matches none of its tests, e.g. the "
+                       "error object an ORDER BY expression evaluated to: None and a tuple are not comparable, sorted() raises TypeError" % (r[0].rel, r[1].name), node=c)
+
+    # ------------------------------------------------------------------ (p)  F108
+    rep.rule("C08.p-sort-key-number-block-agrees-with-literal-order",
+             "Literal.__gt__ compares two literals by value when both satisfy its `is a number` predicate (datatype in _NUMERIC_LITERAL_TYPES, well typed, has a value) and otherwise by "
+             "datatype / lexical form; that is only an order if numbers form one block. The ORDER BY / MIN / MAX key function therefore puts, before the literal itself, a component computed "
+             "with exactly that predicate. Without it `ORDER BY ?v` over \"0abc\"^^xsd:integer, 5, 9.0e0 is cyclic (\"0abc\" < 5 by text, 5 < 9.0e0 by value, 9.0e0 < \"0abc\" numbers first) "
+             "and the result depends on the input order", floor=1)
+    term = repo.mod("rdflib.term")
+    gt = term.func("Literal.__gt__")
+    selfname = gt.args.args[0].arg
+
+    def conjuncts(e: ast.AST, subject: str) -> frozenset[str]:
+        out = set()
+        for v in e.values:  # type: ignore[attr-defined]
+            t = ast.parse(norm(v), mode="eval").body
+            for n in ast.walk(t):
+                if isinstance(n, ast.Name) and n.id == subject:
+                    n.id = "SUBJECT"
+            out.add(norm(t))
+        return frozenset(out)
+
+    def is_membership(e: ast.AST) -> bool:
+        """one conjunct is `<x>.datatype in <module-level table>`"""
+        return any(isinstance(x, ast.Compare) and len(x.ops) == 1 and isinstance(x.ops[0], ast.In) and isinstance(x.comparators[0], ast.Name)
+                   and isinstance(x.left, ast.Attribute) and x.left.attr == "datatype" for x in ast.walk(e))
+
+    lit_pred = {conjuncts(b, selfname) for b in own_nodes(gt) if isinstance(b, ast.BoolOp) and isinstance(b.op, ast.And) and is_membership(b)
+                and all(selfname in {n.id for n in ast.walk(v) if isinstance(n, ast.Name)} for v in b.values)}
+    if len(lit_pred) != 1:
+        raise AnalysisError("Literal.__gt__: the predicate selecting comparison by value (datatype in <numeric types> and ...) not found uniquely: %s" % sorted(map(sorted, lit_pred)))
+    want = next(iter(lit_pred))
+    keyfns = {}
+    for m in (ev, ag):
+        for c in ast.walk(m.tree):
+            if isinstance(c, ast.Call) and isinstance(c.func, ast.Name) and c.func.id in ("sorted", "min", "max"):
+                for k in c.keywords:
+                    kf = k.value
+                    if k.arg == "key":
+                        if isinstance(kf, ast.Lambda) and isinstance(kf.body, ast.Call) and isinstance(kf.body.func, ast.Name):
+                            kf = kf.body.func
+                        r = H.resolve_function(repo, m, kf.id) if isinstance(kf, ast.Name) else None
+                        if r is not None:
+                            keyfns[id(r[1])] = r
+    if not keyfns:
+        raise AnalysisError("no sort key function found")
+    for km, kfn in keyfns.values():
+        p0 = kfn.args.args[0].arg
+        params = {a.arg for a in kfn.args.args}
+        found = False
+        for br in own_nodes(kfn):
+            if not (isinstance(br, ast.If) and isinstance(br.test, ast.Call) and norm(br.test.func) == "isinstance" and norm(br.test.args[0]) == p0 and "Literal" in H.type_names(br.test.args[1])):
+                continue
+            for rt in [x for s_ in br.body for x in ast.walk(s_) if isinstance(x, ast.Return)]:
+                found = True
+                elts = rt.value.elts if isinstance(rt.value, ast.Tuple) else [rt.value]
+                idx = next((i for i, e in enumerate(elts) if isinstance(e, ast.Name) and e.id == p0), len(elts))
+                got = set()
+                for e in elts[:idx]:
+                    for x in H.expand_locals(kfn, e, params):
+                        for b in ast.walk(x):
+                            if isinstance(b, ast.BoolOp) and isinstance(b.op, ast.And):
+                                got.add(conjuncts(b, p0))
+                ok = want in got
+                rep.ob("C08.p-sort-key-number-block-agrees-with-literal-order", km, kfn.name, "key of a Literal: %s" % norm(rt.value), ok,
+                       "numbers first, by Literal.__gt__'s own predicate" if ok else
+                       "the key of a literal has no component before the literal itself that is computed with Literal.__gt__'s predicate %s%s: numbers (ordered by value across datatypes) are interleaved "
+                       "with the literals ordered by datatype and text, the comparison is cyclic" % (sorted(want), " (found %s)" % sorted(map(sorted, got)) if got else ""), node=rt)
+        if not found:
+            raise AnalysisError("%s: branch for Literal not found" % kfn.name)
+
+    # ------------------------------------------------------------------ (q)  F104
+    rep.rule("C08.q-no-aggregate-binds-None",
+             "for every class in Aggregator.accumulator_classes the set_value() it resolves to stores into the group's bindings only a term: a stored `self.get_value()` whose resolved "
+             "get_value() can return None (declared `-> None` / `| None`, returns None, or falls through) must be guarded by a None test. SAMPLE over no value (`SELECT ?g (SAMPLE(?u) AS ?s) "
+             "... GROUP BY ?g` with ?u never bound; also every unbound GROUP BY key, which is sampled) otherwise binds Python None: joins, DISTINCT and the serializers break", floor=7)
+    for cname in concrete:
+        owner, sv = resolved(cname, "set_value")
+        if sv is None:
+            raise AnalysisError("%s: set_value() not resolved" % cname)
+        if len(sv.args.args) < 2:
+            raise AnalysisError("%s.set_value: signature not recognised" % owner)
+        bparam = sv.args.args[1].arg
+        stores = [s_ for s_ in own_nodes(sv) if isinstance(s_, ast.Assign) and any(isinstance(t, ast.Subscript) and norm(t.value) == bparam for t in s_.targets)]
+        bad = None
+        for s_ in stores:
+            v = s_.value
+            if isinstance(v, ast.Constant) and v.value is None:
+                bad = (s_, "None")
+            if isinstance(v, ast.Call) and isinstance(v.func, ast.Attribute) and norm(v.func.value) == sv.args.args[0].arg and not v.args:
+                gowner, gv = resolved(cname, v.func.attr)
+                if gv is None:
+                    raise AnalysisError("%s: %s() not resolved" % (cname, v.func.attr))
+                nullable = (gv.returns is not None and ("None" in norm(gv.returns) or "Optional" in norm(gv.returns))) or not H.always_returns_value(gv.body) \
+                    or any(isinstance(x, ast.Return) and isinstance(x.value, ast.Constant) and x.value.value is None for x in own_nodes(gv))
+                if nullable and not H.non_none_guarded(ag, s_, norm(v), sv):
+                    bad = (s_, "%s.%s() which can return None" % (gowner, v.func.attr))
+        rep.ob("C08.q-no-aggregate-binds-None", ag, "%s.set_value" % cname, "%s: %s" % (ag.qual_of(sv) or owner, "; ".join(norm(s_) for s_ in stores) or "binds nothing"), bad is None,
+               "binds a term (or nothing)" if bad is None else "%s (used for %s) stores %s into the bindings: the variable is bound to Python None instead of staying unbound" % (
+                   "%s.set_value" % owner, cname, bad[1]), node=bad[0] if bad else sv)
+
+    # ------------------------------------------------------------------ (r)  F109
+    rep.rule("C08.r-numeric-aggregate-records-type-error",
+             "an accumulator whose update() converts the value with operators.numeric() (SUM, AVG: numeric-add is an error for a term that is not a number) does not swallow numeric()'s "
+             "SPARQLTypeError: the handler that catches it stores a mark on self, the set_value() the class resolves to binds the variable only under a test of that mark, and the handler "
+             "for NotBoundError (unbound: skipped) sets no mark. `SELECT (SUM(?v) AS ?s)` over 1, 2, \"x\" leaves ?s unbound (W3C agg-err-01) instead of answering 3", floor=6)
+    opm = repo.mod("rdflib.plugins.sparql.operators")
+    n_num = 0
+    for cname in concrete:
+        owner, upd = resolved(cname, "update")
+        if upd is None:
+            raise AnalysisError("%s: update() not resolved" % cname)
+        calls = []
+        for c in own_nodes(upd):
+            if isinstance(c, ast.Call) and isinstance(c.func, ast.Name):
+                r = H.resolve_function(repo, ag, c.func.id)
+                if r is not None and r[0] is opm and r[1].name == "numeric":
+                    calls.append((c, r))
+        if not calls:
+            continue
+        n_num += 1
+        kinds = esc.of_function(calls[0][1][0], calls[0][1][1])
+        if not kinds:
+            raise AnalysisError("operators.numeric raises no SPARQL error any more: rule C08.r must be revisited")
+        selfn = upd.args.args[0].arg
+
+        def marks(h: ast.ExceptHandler) -> set[str]:
+            out = set()
+            for s_ in h.body:
+                for x in ast.walk(s_):
+                    tg = x.targets if isinstance(x, ast.Assign) else [x.target] if isinstance(x, (ast.AugAssign, ast.AnnAssign)) else []
+                    out |= {t.attr for t in tg if isinstance(t, ast.Attribute) and norm(t.value) == selfn}
+            return out
+
+        flags: set[str] = set()
+        for c, _r in calls:
+            tries = [p_ for p_ in ag.parents(c) if isinstance(p_, ast.Try) and any(c in ast.walk(s_) for s_ in p_.body)]
+            for kind in sorted(kinds):
+                h = next((h for t in tries for h in t.handlers if esc.catches(h, kind)), None)
+                mk = marks(h) if h is not None else set()
+                flags |= mk
+                ok = bool(mk)
+                rep.ob("C08.r-numeric-aggregate-records-type-error", ag, "%s.update" % cname, "handler of %s from numeric()" % kind, ok,
+                       "recorded in self.%s" % sorted(mk) if ok else "the %s numeric() raises for a term that is not a number is %s: the aggregate silently sums the remaining numbers instead of being an error" % (
+                           kind, "not handled here" if h is None else "caught by `except %s` which records nothing on self" % norm(h.type)), node=h or c)
+            hb = next((h for t in tries for h in t.handlers if esc.catches(h, "NotBoundError")), None)
+            ok = hb is not None and not marks(hb)
+            rep.ob("C08.r-numeric-aggregate-records-type-error", ag, "%s.update" % cname, "handler of NotBoundError", ok,
+                   "skips the solution" if ok else "an unbound variable is not skipped (handler %s): a solution without a value makes the aggregate an error" % (norm(hb.type) if hb is not None and hb.type is not None else hb), node=hb or c)
+        if not flags:
+            rep.ob("C08.r-numeric-aggregate-records-type-error", ag, "%s.set_value" % cname, "set_value consults the error mark", False,
+                   "%s.update records no error mark on self, so set_value cannot leave the variable unbound for an aggregate that is an error" % cname, node=upd)
+        else:
+            sowner, sv = resolved(cname, "set_value")
+            if sv is None:
+                raise AnalysisError("%s: set_value() not resolved" % cname)
+            bparam = sv.args.args[1].arg
+            stores = [s_ for s_ in own_nodes(sv) if isinstance(s_, ast.Assign) and any(isinstance(t, ast.Subscript) and norm(t.value) == bparam for t in s_.targets)]
+            unguarded = [s_ for s_ in stores if not any(isinstance(p_, ast.If) and any(isinstance(a, ast.Attribute) and a.attr in flags and norm(a.value) == sv.args.args[0].arg for a in ast.walk(p_.test))
+                                                         for p_ in ag.parents(s_))]
+            ok = bool(stores) and not unguarded
+            rep.ob("C08.r-numeric-aggregate-records-type-error", ag, "%s.set_value" % cname, "%s.set_value binds under a test of self.%s" % (sowner, sorted(flags)), ok,
+                   "an aggregate that is an error leaves the variable unbound" if ok else "%s.set_value binds the variable without consulting self.%s: the error mark set by update() has no effect" % (sowner, sorted(flags)),
+                   node=unguarded[0] if unguarded else sv)
+    if n_num < 2:
+        raise AnalysisError("expected SUM and AVG to convert with operators.numeric(); found %d such accumulator(s)" % n_num)
